@@ -67,7 +67,7 @@ impl World {
         let cb_before = self.nodes[to].as_ref().unwrap().cb.load(Ordering::SeqCst);
         self.nodes[to].as_ref().unwrap().calls.lock().unwrap().clear();
         let foreign = match &*fl.msg {
-            Msg::Syn { cluster, .. } => cluster != &self.cfg.cluster_ids[self.cfg.cluster_of[to]],
+            Msg::Syn { cluster, .. } => cluster != &self.cfg.cluster_ids[self.cluster_now[to]],
             _ => false,
         };
         chitchat::verif::set_shuffle_seed(crate::rng::mix(self.cfg.shuffle_seed, self.step as u64));
@@ -405,7 +405,8 @@ impl World {
         }
 
         self.check_copies(to, false)?;
-        self.check_isolation(to)?;
+        let via = fl.msg.kind();
+        self.check_isolation(to, Some(via))?;
         Ok(Delivered { reply_sent })
     }
 
@@ -484,18 +485,41 @@ impl World {
     }
 
     /// C16 invariant: nothing about a member of another cluster anywhere on node p.
-    pub fn check_isolation(&mut self, p: usize) -> Result<(), Violation> {
+    ///
+    /// Known finding KF-3: SYN-ACK and ACK carry no cluster id. When the node at an address is
+    /// replaced by a node of the other cluster (Cmd::Rehome), a SYN-ACK or ACK still in flight to
+    /// the previous occupant is applied by the new one. A leak is classified as KF-3 when it shows
+    /// right after such a message at an address that an incarnation of the leaked member's cluster
+    /// has held before, or when the member has already got into this cluster that way (it then
+    /// spreads through this cluster's own, legitimate gossip). Any other leak is a violation.
+    pub fn check_isolation(&mut self, p: usize, via: Option<&'static str>) -> Result<(), Violation> {
         if !self.on("C16") || self.cfg.cluster_ids.len() < 2 {
             return Ok(());
         }
         let node = self.nodes[p].as_ref().unwrap();
-        let mine = self.cfg.cluster_of[p];
+        let mine = self.cluster_now[p];
         let mut ids: Vec<Id> = node.chit.node_states().keys().map(Id::from_real).collect();
         ids.extend(node.chit.live_nodes().map(Id::from_real));
         ids.extend(node.chit.dead_nodes().map(Id::from_real));
         for id in ids {
             if let Some(&oi) = self.inc_of.get(&id) {
-                if self.cfg.cluster_of[self.incs[oi].pos] != mine {
+                let theirs = self.incs[oi].cluster;
+                if theirs != mine {
+                    let address_changed_hands = self.incs.iter().any(|i| i.pos == p && i.cluster == theirs);
+                    let no_cluster_id = matches!(via, Some("synack") | Some("ack"));
+                    if self.kf3_ids[mine].contains(&id) || (address_changed_hands && no_cluster_id) {
+                        if self.kf3_ids[mine].insert(id.clone()) {
+                            self.stats.inc("known_kf3");
+                            if self.known_hits.len() < 4 {
+                                self.known_hits.push(format!(
+                                    "KF-3 n{p} (cluster {mine}, at an address a node of cluster {theirs} held before) learnt {} of cluster {theirs} from a {} that carries no cluster id",
+                                    id.short(),
+                                    via.unwrap_or("message")
+                                ));
+                            }
+                        }
+                        continue;
+                    }
                     return Err(self.viol("C16", "C16.leak", format!("n{p} (cluster {mine}) knows {} of another cluster", id.short())));
                 }
             }
